@@ -170,6 +170,9 @@ func runSolver(sv Solver, file string, timeoutS int) (status, out string, secs f
 		status = first
 	default:
 		status = "unknown"
+		if strings.HasPrefix(first, "(error") {
+			status = "error"
+		}
 	}
 	return
 }
